@@ -358,6 +358,9 @@ class Sem:
         if want is None or x.op != "call":
             return []
         b = w.callee_body(x)
+        if b is None and want in ("Some", "Ok"):
+            # a library combinator tested in place (`if let Some(h) = read(..).ok().filter(|h| h.released)`)
+            return [g for g in self.value_facts(x, want) if g != f]
         if b is None or not b.is_fn():
             return []
         out = []
